@@ -23,8 +23,8 @@ DISC = ["emb", "cat_logits", "cat_softmax"]
 def build_pipeline(rng):
     """returns (root derived circuit, list of (kind, derived, operands, meta)), generator"""
     monotone = rng.random() < 0.6
-    kinds = DISC if rng.random() < 0.7 else ["emb", "cat_logits", "gau"]
-    o = gen.random_opts(rng, kinds=kinds, monotone=monotone, regular=True, sd=True, nout=1)
+    kinds = DISC if rng.random() < 0.7 else rng.choice([["emb", "cat_logits", "gau"], ["gau"]])
+    o = gen.random_opts(rng, kinds=kinds, monotone=monotone, regular=True, sd=True, nout=1, gau_lp_prob=0.7)
     o["nvars"] = rng.choice([1, 2, 2, 3])
     if o["prod"] == "any":
         o["prod"] = "had"
@@ -38,16 +38,14 @@ def build_pipeline(rng):
         scope = sorted(cur.scope._set)
         ops = ["conjugate"]
         if scope:
-            ops += ["integrate", "integrate", "evidence"]
+            ops += ["integrate", "integrate", "evidence"] + (["integrate"] * 3 if "gau" in kinds else [])
         ops += ["multiply", "multiply", "concatenate"]
         op = rng.choice(ops)
         try:
             if op == "integrate":
                 Z = sorted(rng.sample(scope, rng.randint(1, len(scope))))
-                if any(g.doms[v][0] != "disc" for v in Z):
-                    continue
                 nxt = SF.integrate(cur, Scope(Z))
-                steps.append(("integrate", nxt, [cur], {"Z": Z}))
+                steps.append(("integrate", nxt, [cur], {"Z": Z, "cont": any(g.doms[v][0] != "disc" for v in Z)}))
             elif op == "evidence":
                 ov = sorted(rng.sample(scope, rng.randint(1, len(scope))))
                 obs = {v: (rng.randrange(g.doms[v][1]) if g.doms[v][0] == "disc" else gen.dy(rng, 0, 4, 4)) for v in ov}
@@ -57,6 +55,8 @@ def build_pipeline(rng):
                 other = cur if rng.random() < 0.5 else gen.gen_circuit(rng, **dict(o, like=g))[0]
                 if sorted(other.scope._set) != scope:
                     continue
+                if max(l.num_output_units for l in cur.layers) * max(l.num_output_units for l in other.layers) > 64:
+                    continue   # repeated products of Kronecker circuits: the unit-permutation matrices grow as (K1*K2)^(2*arity)
                 nxt = SF.multiply(cur, other)
                 steps.append(("multiply", nxt, [cur, other], {}))
             elif op == "concatenate":
@@ -74,6 +74,8 @@ def build_pipeline(rng):
 def relation_ok(ctx, kind, derived, operands, meta, g, ys_all, sem, fold, opt):
     rest = sorted(derived.scope._set)
     ys = [{v: y[v] for v in rest} for y in ys_all] or [{}]
+    if kind == "integrate" and meta.get("cont"):
+        return True, {}   # continuous variables: the storage-identity and model-denotation checks apply, no brute-force sum
     if kind == "integrate":
         (c,) = operands
         w = evalc.width_of(c)
